@@ -7,8 +7,10 @@
        of every module of every explored program.
    (b) tree shape: the SymbolFiller is not modelled; wf_symtabb is a checker that is
        PROVED SOUND here and run on the real table of every explored module.
-   (c) go-to-definition: not modelled; the real results are judged by goto_okb
-       (sound, below) and termination is watched by the harness.                  *)
+   (c) go-to-definition: modelled for the fragment without qualified names
+       (termination and leaf soundness proved, results compared with the real code on
+       every program without an `import X = A.B` declaration); for all programs the real
+       results are judged by goto_okb (sound, below) and termination is watched.   *)
 From DG Require Import Base.Util Model.Symbols Proofs.SymbolsProofs.
 
 (* ---------------- (a) export resolution ---------------- *)
@@ -48,11 +50,30 @@ Theorem C16_wf_checker_sound : forall t, wf_symtabb t = true -> wf_symtab t.
 Proof. exact wf_symtabb_sound. Qed.
 Print Assumptions C16_wf_checker_sound.
 
-(* ---------------- (c) go-to-definition results ---------------- *)
+(* ---------------- (c) go-to-definition ---------------- *)
 
-(* every result accepted by the checker is a declaration that exists in the dump and
-   is a Definition (or the FileRef Star declaration of an ExportStar definition), or an
-   explicit unresolved marker located in an analysed module *)
+(* Model of find_definition_paths_internal / go_to_file_export (flattened to its leaves)
+   for the fragment WITHOUT qualified names: a QualifiedTarget declaration
+   (`import X = A.B`) is not followed by the model (marker NOT_MODELLED) and programs
+   containing one are excluded from the model/implementation comparison of
+   go-to-definition.  In the real code that declaration kind restarts the search with a
+   fresh visited set; with it, termination is FALSE (known finding F-C16c), so these
+   two theorems are the strongest true statements of this shape. *)
+Theorem C16_goto_terminates_partial : forall w m s, goto_defs w m s <> None.
+Proof. exact goto_fragment_terminates. Qed.
+Print Assumptions C16_goto_terminates_partial.
+
+(* every leaf is an existing Definition declaration of an existing symbol (or the
+   FileRef Star declaration of an ExportStar definition), or an explicit marker *)
+Theorem C16_goto_sound_partial : forall w m s ls,
+  goto_defs w m s = Some ls -> Forall (leaf_ok w) ls.
+Proof. exact goto_fragment_sound. Qed.
+Print Assumptions C16_goto_sound_partial.
+
+(* the checker that judges the REAL results of every query (all programs, including
+   those with qualified names): every accepted result is a declaration that exists in
+   the dump and is a Definition (or the FileRef Star declaration of an ExportStar
+   definition), or an explicit unresolved marker located in an analysed module *)
 Theorem C16_goto_results_checked : forall w gs, goto_okb w gs = true ->
   forall q g, In q gs -> In g (snd q) -> gres_ok w g.
 Proof. exact goto_okb_sound. Qed.
@@ -60,7 +81,8 @@ Print Assumptions C16_goto_results_checked.
 
 (* ---------------- refutation witnesses (known findings) ---------------- *)
 
-Definition mkd (n : option N) (a b k : N) : sdecl := {| d_name := n; d_start := a; d_end := b; d_kind := k |}.
+Definition mkd (n : option N) (a b k : N) : sdecl :=
+  {| d_name := n; d_start := a; d_end := b; d_kind := k; d_target := None; d_file := None; d_import := 0 |}.
 Definition mks (id : N) (p n : option N) (ds : list sdecl) (ch me : list N) (ex : list (N * N)) : sym :=
   {| s_id := id; s_parent := p; s_name := n; s_decls := ds; s_children := ch; s_members := me; s_exports := ex |}.
 
@@ -140,3 +162,33 @@ Example C16_exports_nonvacuous :
                         (7, ReExportAll 10 100 (ReExportAll 20 101 (Export 30 1))) ];
           unresolved := [(20, 102)] |}.
 Proof. vm_compute. reflexivity. Qed.
+
+(* go-to-definition through an import, a named re-export and a star re-export, with a
+   cycle of re-exports that resolves nowhere:
+     module 10: symbol 1 = `import { x } from 20`    (FileRef x -> 20)
+                symbol 2 = `export { q } from 20`    (FileRef q -> 20)
+     module 20: `export * from 30`; symbol 1 = `export { q } from 10` exported as q
+     module 30: symbol 1 = `export const x` (Definition), exported as x = 5      *)
+Definition fref (file imp : N) : sdecl :=
+  {| d_name := None; d_start := 0; d_end := 0; d_kind := 3; d_target := None; d_file := Some file; d_import := imp |}.
+Definition goto_world : sworld :=
+  {| sw_mods :=
+       [ (10, {| sm_key := 10; sm_stars := [];
+                 sm_tab := {| t_root := 0; t_len := 0;
+                              t_syms := [ mks 0 None None [] [] [] [(6, 2)];
+                                          mks 1 (Some 0) None [fref 20 5] [] [] [];
+                                          mks 2 (Some 0) None [fref 20 6] [] [] [] ] |} |});
+         (20, {| sm_key := 20; sm_stars := [(100, Some 30)];
+                 sm_tab := {| t_root := 0; t_len := 0;
+                              t_syms := [ mks 0 None None [] [] [] [(6, 1)];
+                                          mks 1 (Some 0) None [fref 10 6] [] [] [] ] |} |});
+         (30, {| sm_key := 30; sm_stars := [];
+                 sm_tab := {| t_root := 0; t_len := 9;
+                              t_syms := [ mks 0 None None [] [1] [] [(5, 1)];
+                                          mks 1 (Some 0) (Some 5) [mkd (Some 5) 0 9 0] [] [] [] ] |} |}) ];
+     sw_s2m := [(10, 10); (20, 20); (30, 30)] |}.
+
+Example C16_goto_nonvacuous :
+  goto_defs goto_world 10 1 = Some [GDef 30 1 0 false] /\
+  goto_defs goto_world 10 2 = Some [].
+Proof. split; vm_compute; reflexivity. Qed.
